@@ -74,31 +74,20 @@ impl Bus {
 
     /// Reads a word stored in memory in little endian byte order, returns this word in BE byte order
     pub fn read_word(&self, address: u16) -> u16 {
-        if address as usize >= self.address_space.len() {
-            return 0;
-        }
-        u16::from(self.address_space[usize::from(address)])
-            | (u16::from(self.address_space[usize::from(address + 1)]) << 8)
+        u16::from(self.read_byte(address)) | (u16::from(self.read_byte(address.wrapping_add(1))) << 8)
     }
 
     /// Reads a word stored in memory in little endian byte order, returns this word in LE byte order
     pub fn read_le_word(&self, address: u16) -> u16 {
-        if address as usize >= self.address_space.len() {
-            return 0;
-        }
-        u16::from(self.address_space[usize::from(address)]) << 8
-            | (u16::from(self.address_space[usize::from(address + 1)]))
+        u16::from(self.read_byte(address)) << 8 | u16::from(self.read_byte(address.wrapping_add(1)))
     }
 
     /// Reads a dword stored in memory in little endian byte order, returns this dword in LE byte order
     pub fn read_le_dword(&self, address: u16) -> u32 {
-        if address as usize >= self.address_space.len() {
-            return 0;
-        }
-        u32::from(self.address_space[usize::from(address)]) << 24
-            | u32::from(self.address_space[usize::from(address + 1)]) << 16
-            | u32::from(self.address_space[usize::from(address + 2)]) << 8
-            | u32::from(self.address_space[usize::from(address + 3)])
+        u32::from(self.read_byte(address)) << 24
+            | u32::from(self.read_byte(address.wrapping_add(1))) << 16
+            | u32::from(self.read_byte(address.wrapping_add(2))) << 8
+            | u32::from(self.read_byte(address.wrapping_add(3)))
     }
 
     /// Writes a word to memory in little endian byte order
